@@ -334,6 +334,7 @@ func execSeg(c *ctx, line string) (obs string) {
 			if err != nil {
 				out = append(out, segErrKind(err))
 				rd = nil
+				recoveryMustSucceed(c, "restart", err, line)
 			} else {
 				out = append(out, "ok")
 				sw, rd = nsw, nsw
@@ -382,6 +383,7 @@ func execSeg(c *ctx, line string) (obs string) {
 			if err != nil {
 				out = append(out, segErrKind(err))
 				rd = nil
+				recoveryMustSucceed(c, "power loss", err, line)
 			} else {
 				out = append(out, "ok")
 				sw, rd = nsw, nsw
@@ -469,6 +471,15 @@ func execSeg(c *ctx, line string) (obs string) {
 		}
 	}
 	return strings.Join(out, " ")
+}
+
+// recoveryMustSucceed (C03): in the segcrash stream every file handed to RecoverTail is what
+// successful appends, failed appends and the tearing of the last write leave behind -- never
+// damage to acknowledged bytes -- so tail recovery has no reason to fail.
+func recoveryMustSucceed(c *ctx, how string, err error, line string) {
+	if c.stream == "segcrash" {
+		c.witness("C03", "recovery-fails-on-crash-state", fmt.Sprintf("RecoverTail after a %s fails on a file that appends, failed appends and a torn last write left behind: %v", how, err), line)
+	}
 }
 
 // ---- generators -----------------------------------------------------------
@@ -617,7 +628,11 @@ func genSegCrash(c *ctx, emit func(string)) {
 			batchOf(r, base, []int{8 + 8*r.Intn(3)})}
 		big := []int{40, 48, 56, 40 + 8*r.Intn(4), 48, 40}[:4+k%3] // > 256 bytes of frames: seals
 		ops = append(ops, []string{"E s", "E w", "E s", "E w", "E p", "E p"}[k], batchOf(r, base+1, big), "L", "Q")
-		small := []int{16, 24}[:1+k%2] // fewer entries, fits: succeeds unsealed
+		// fits and succeeds unsealed; its frames + commit frame end exactly where the first frame
+		// of the failed batch (payload 40: 48 bytes) ended, so the scan walks on into the stale
+		// frames: two entries in the place of one (the stale index frame then has one slot too
+		// few for the entries before it), or one
+		small := [][]int{{8, 16}, {32}}[k%2]
 		ops = append(ops, batchOf(r, base+1, small), "L", "Q")
 		if k >= 2 {
 			ops = append(ops, "C "+allOnes(limit).Text(16))
